@@ -798,7 +798,23 @@ structure Field where
   rtoks : List String
   wids : Nat × Nat × List Nat
   rids : Nat × Nat × List Nat
+  /-- found by the translator from the source alone: the writer reads the attribute NAMED like the `to_dict` key and the
+  reader fills the attribute / `add_*` parameter of that name, in the same section (`Field.byName`); `false`: a line of the
+  short hand-written remainder (names differ: `base_head` is `head_timeseries.base_value`, …) -/
+  derived : Bool
   deriving Repr, DecidableEq
+
+def infixOf (a : List Char) : List Char → Bool
+  | [] => a.isEmpty
+  | c :: t => a.isPrefixOf (c :: t) || infixOf a t
+
+/-- the slot names are ABOUT the key: `elevation` ↔ `add_junction.elevation`, `_vertices[][0]` ↔ `_vertices.append.0`,
+`LinkStatus(initial_status).name` ↔ `initial_status`, `options.hydraulic.trials` ↔ the same; an element's `name` is the
+name list the writer iterates; the generic [TIMES] rule `options.time.*` -/
+def Field.byName (f : Field) : Bool :=
+  f.wsec == f.rsec &&
+  (infixOf f.key.toList f.w.toList || (f.key == "name" && infixOf "_name_list".toList f.w.toList)) &&
+  (infixOf f.key.toList f.r.toList || f.r == "options.time.*")
 
 /-- same section, same direction, same name, and every guard token asked for is among the row's (compared through the
 translator's string numbering: kernel evaluation of `String` equality is three orders of magnitude slower) -/
